@@ -1,0 +1,5 @@
+// Package verifhook provides schedule and observation points used by external
+// verification harnesses. The points are compiled in only with the build tag
+// "verif"; without the tag this package is empty and the call sites in other
+// packages are no-ops.
+package verifhook
